@@ -307,6 +307,12 @@ func addLineText(p *lineParser) {
 	}
 
 	switch k := p.ContainerKind(); {
+	case k == ParagraphKind:
+		// "Lines after the first may be indented any amount,
+		// since leading spaces or tabs are skipped."
+		// The indentation of a continuation line is not part of the paragraph's content,
+		// whatever inline construct the line continues.
+		p.ConsumeIndent(p.Indent())
 	case blockRules[k].acceptsLines:
 		if p.i < len(p.line) && p.line[p.i] == '\t' && p.tabPartial && p.tabRemaining > 0 {
 			// Only part of the tab was consumed as indentation:
